@@ -142,6 +142,74 @@ pub fn run(ctx: &mut Ctx) {
                 d(J::obj().set("sample", at).set("at_0db", y0[at]).set("at_v", yv[at]).set("expected", g * y0[at]).set("relative_error", worst)),
             );
         }
+        // the same law however the waveform is pulled out of the generator: frame by frame, or
+        // some frames first and the rest in one go
+        if v != 0.0 {
+            let fp = ev.condition.get_fperiod();
+            let drain = (idx / 18) % 3;
+            let pulled: Option<Vec<f64>> = match ev.generator(labels.clone()) {
+                Err(_) => None,
+                Ok(mut g) => {
+                    let mut out: Vec<f64> = Vec::with_capacity(y0.len());
+                    let steps = match drain {
+                        0 => 0,
+                        1 => usize::MAX,
+                        _ => rng.range(1, 9),
+                    };
+                    let mut k = 0;
+                    while k < steps {
+                        let mut buf = vec![0.0; fp + if k % 2 == 1 { 3 } else { 0 }];
+                        let r = g.generate_step(&mut buf);
+                        if r == 0 {
+                            break;
+                        }
+                        out.extend_from_slice(&buf[..r]);
+                        k += 1;
+                    }
+                    if steps != usize::MAX {
+                        out.extend(g.generate_all());
+                    }
+                    Some(out)
+                }
+            };
+            match pulled {
+                Some(out) if out.len() == y0.len() => {
+                    let mut worst = 0.0f64;
+                    let mut at = 0;
+                    for (i, (a, b)) in y0.iter().zip(&out).enumerate() {
+                        let want = g * a;
+                        if !want.is_finite() || !a.is_finite() {
+                            continue;
+                        }
+                        let e = if want == 0.0 {
+                            if *b != 0.0 { f64::INFINITY } else { 0.0 }
+                        } else {
+                            (b - want).abs() / want.abs().max(f64::MIN_POSITIVE)
+                        };
+                        if e > worst || e.is_nan() {
+                            worst = e;
+                            at = i;
+                        }
+                    }
+                    ctx.count(&format!("pulled_from_the_generator_{}", ["all_at_once", "frame_by_frame", "some_frames_then_the_rest"][drain]), 1.0);
+                    if !(worst <= 32.0 * f64::EPSILON) {
+                        ctx.violation(
+                            "not-a-pure-gain:when-pulled-from-the-generator",
+                            d(J::obj()
+                                .set("how", ["generate_all", "generate_step until 0", "a few generate_step, then generate_all"][drain])
+                                .set("sample", at)
+                                .set("frame", at / fp)
+                                .set("at_0db", y0[at])
+                                .set("at_v", out[at])
+                                .set("expected", g * y0[at])
+                                .set("relative_error", worst)),
+                        );
+                    }
+                }
+                Some(out) => ctx.violation("volume-changed-length", d(J::obj().set("len0", y0.len()).set("len_pulled", out.len()))),
+                None => ctx.violation("synthesize-err", J::from("generator()")),
+            }
+        }
         ctx.count("samples_compared", finite as f64);
         if v != 0.0 && finite > 0 && y0.iter().any(|x| *x != 0.0) {
             ctx.nontrivial(mix(&[hash_str(&descr), (v * 1000.0) as i64 as u64, y0.len() as u64]));
